@@ -54,3 +54,27 @@ Theorem C08_weights_are_first_nonzero_draws : forall (K : Fld) (draws : list K) 
   take_nonzero K n draws = firstn n (filter (fun d => negb (is_zero K d)) draws).
 Proof. exact take_nonzero_spec. Qed.
 Print Assumptions C08_weights_are_first_nonzero_draws.
+
+(** The algebra of the cancellation attack the checks mount (tools/props/c08.py, c03.py): shifting the response d1[k] of a member by delta moves
+    its textbook residual by delta * Gb_k and nothing else; so with factors w_i, w_j that did NOT change with the responses, the shifts
+    (w_j t, - w_i t) leave the weighted sum of the two residuals — the batch's final product — where it was, and two individually invalid proofs
+    pass together.  That the factors are drawn after every response has been absorbed (C08_verifier_rng_absorbs_all_responses) is therefore
+    necessary. *)
+From BP Require Import Model.Verifier Proofs.BatchEquivP Proofs.CancelP.
+Theorem C08_shifted_response_moves_residual_along_Gb : forall (K : Fld), FldOk K -> forall (M : Mod K), ModOk K M ->
+  forall (H : M) (Gb G Hv : list M) (b : bmember K M) k delta,
+  (k < length (v_d1 (b_pf K M b)))%nat -> length (v_d1 (b_pf K M b)) = length Gb ->
+  b_residual K M H Gb G Hv (shift_d1 K M b k delta) = vadd M (b_residual K M H Gb G Hv b) (smul M delta (nth k Gb (v0 M))).
+Proof. exact residual_of_shifted_response. Qed.
+Print Assumptions C08_shifted_response_moves_residual_along_Gb.
+
+Theorem C08_cancelling_shifts_leave_the_weighted_sum : forall (K : Fld), FldOk K -> forall (M : Mod K), ModOk K M ->
+  forall (H : M) (Gb G Hv : list M) (bi bj : bmember K M) k t,
+  (k < length (v_d1 (b_pf K M bi)))%nat -> length (v_d1 (b_pf K M bi)) = length Gb ->
+  (k < length (v_d1 (b_pf K M bj)))%nat -> length (v_d1 (b_pf K M bj)) = length Gb ->
+  let wi := b_w K M bi in let wj := b_w K M bj in
+  vadd M (smul M wi (b_residual K M H Gb G Hv (shift_d1 K M bi k (fmul K wj t))))
+         (smul M wj (b_residual K M H Gb G Hv (shift_d1 K M bj k (fopp K (fmul K wi t)))))
+  = vadd M (smul M wi (b_residual K M H Gb G Hv bi)) (smul M wj (b_residual K M H Gb G Hv bj)).
+Proof. exact cancelling_shifts_leave_the_weighted_sum. Qed.
+Print Assumptions C08_cancelling_shifts_leave_the_weighted_sum.
